@@ -101,7 +101,7 @@ def gen_insts(rng, tier):
                     else:
                         pat.append(min(rng.choice([0, 1, 2, 3, 4, 5, 7] + ([iroot(M, R)] if R > 1 else [M])), (1 << 64) - 2))  # 2^64-1 is dynamic_extent
                 pats.append(tuple(pat))
-            if R > 0 and tier != "quick":
+            if R > 0 and (tier != "quick" or R <= 3):
                 pats.append(tuple(rng.choice([1, 2, 3, 4]) for _ in range(R)))     # all static
             for pat in pats:
                 for lay in (0, 1, 2):
@@ -240,6 +240,17 @@ def gen_cases(rng, insts, tier):
             toks = [inst.id, t, inst.lay, inst.pv, R] + list(inst.pat) + [1] + list(es) + list(ss) + [0]
             cases.append((inst, toks, {"class": "hidden-product", "rank": R, "lay": 2, "t": t, "es": es, "ss": ss, "dpv": None,
                                        "ctor": 1, "pv": inst.pv, "pat": list(inst.pat), "enum": False}))
+        # default construction: dynamic extents are 0, static ones as in the type
+        des = [0 if p == DYN else p for p in inst.pat]
+        if prod1(des) <= M and all(e <= M for e in des):
+            ok = True
+            if inst.lay in (3, 4) and R >= 2 and inst.pv != DYN:
+                pad = des[inst.pad_pos()]
+                ok = max(lm(inst.pv, pad), 1) * (prod1(des) // max(pad, 1)) <= M
+            if ok:
+                toks = [inst.id, t, inst.lay, inst.pv, R] + list(inst.pat) + [3] + des + (des if inst.lay == 2 else []) + ([-1] if (0 not in des and prod1(des) <= ENUM_LIMIT) else [0])
+                cases.append((inst, toks, {"class": "default-ctor", "rank": R, "lay": inst.lay, "t": t, "es": des, "ss": [], "dpv": None, "ctor": 3,
+                                           "pv": inst.pv, "pat": list(inst.pat), "enum": False}))
         for cls, es in ext_sets:
             if not all(0 <= e <= M for e in es) or prod1(es) > M:
                 continue
